@@ -366,9 +366,6 @@ def main():
         jobs.append({"family": "mixed", "seeds": seeds, "progs": progs, "steps": steps})
 
   results = execute(jobs, pool)
-  if os.environ.get("C04_DUMP"):
-    with open(os.environ["C04_DUMP"], "w") as f:
-      json.dump({"jobs": jobs, "results": results}, f)
   cases = [{"steps": [{"proc": s["proc"], "seed": s["seed"], "prog": s["prog"], "opt": s["opt"],
                        "mode": s["mode"], "warm": s["warm"], "obs": s["obs"], "errs": s["errs"]}
                       for s in steps]} for steps in results]
